@@ -8,8 +8,10 @@ from . import common, gen, shtools, project, projgen, ninjaparse, c06cdb
 
 LEVEL = 'proof'
 RULE = ('generated projects (libraries of all kinds, executables using them, per-target and global options with adversarial '
-        'argument strings, yacc sources translated by a two-output step and by a one-output step with options of their own (stand-in tool '
-        'harness/stubs/yacc), command() with environment, multi-output build_step, copy_file, alias, default) under generated configure '
+        'argument strings, yacc sources translated by steps of MIXED shapes - default two outputs, two named outputs, one named output, in '
+        'drawn order - with options of their own (stand-in tool harness/stubs/yacc), header files produced by steps and passed through '
+        'includes=, one of them at the TOP of the build directory (include directory = the build directory itself), '
+        'command() with environment, multi-output build_step, copy_file, alias, default) under generated configure '
         'options (library mode, prefix, CFLAGS/LDFLAGS/CPPFLAGS/LDLIBS from the environment), plain and odd file names; a case = one '
         'step of one project compared across backends; non-trivial when its argv contains a character outside [A-Za-z0-9_./=-]. '
         'W:emit: random scripts driven through the real builtins in an in-process build context (compile with header objects / pch / '
@@ -32,6 +34,7 @@ TRUSTED = ('compilation-database model: a rule is abstracted to (tool command, a
            'GNU Make variable-lookup model Make/MakeTVars.v (validated against /usr/bin/make by ./check C01, stage R:make tvars) '
            'and the parser of the variable lines of a written Makefile (harness/c01tv.py)')
 NINJA_ONLY_FLAGS = {'-fdiagnostics-color'}
+FLAG_WITH_PATH = re.compile(r'(-I|-L|-isystem|--[a-z-]+=)\./')
 INTERNAL = re.compile(r'(\.stamp$|/\.dir$|^\.dir$|^PHONY$|\.d$|^Makefile$|^build\.ninja$|^\.bfg_find_deps$)')
 
 
@@ -40,6 +43,9 @@ def canon(s, subs):
         s = s.replace(a, b)
     if s.startswith('./'):
         s = s[2:]          # builddir-relative vs ./-prefixed spelling of the same file
+    m = FLAG_WITH_PATH.match(s)
+    if m and len(s) > m.end():
+        s = m.group(1) + s[m.end():]          # the same inside a flag: -I./gen is the directory -Igen (but -I. stays -I.)
     return s
 
 
@@ -517,9 +523,24 @@ def declared_vs_delivered(rep, rng, idx, backend, odd_names=False):
                 hit = [a for a in argvs if src in a]
                 rep.case('sys:%s:gen:%s:%r' % (backend, st['source'], st['options']), bool(st['options']))
                 rep.count('system:generate step, %d output(s)' % len(st['outputs']))
+                rep.count('system:generate step shape=%s, position %d of %d' % (
+                    st.get('shape'), [x for x in p.steps if x['kind'] == 'generate'].index(st) + 1, sum(1 for x in p.steps if x['kind'] == 'generate')))
                 if not hit or not contains_sublist(hit[0], st['options']):
                     bad += rep.fail('%s backend: options %r of the generated source %s are delivered as %r' % (backend, st['options'], st['source'], hit[:1]),
                                     {'script': p.script(), 'declared': st['options'], 'delivered': hit[:1]}, classes=semicolon_class(backend, st['options'], hit[0] if hit else [], []))
+                else:
+                    # the whole argument vector of the translator: its options, the header it is told to write (a step with
+                    # two outputs), the source, and -o followed by exactly the first declared output - nothing more, nothing
+                    # less, whatever other steps of the same tool the project contains and in whichever order
+                    spell = lambda a: a[:10] + spell(a[10:]) if a.startswith('--defines=') else a[2:] if a.startswith('./') else a
+                    got = [spell(a) for a in hit[0]]
+                    tail = [src, '-o', st['outputs'][0]]
+                    want = list(st['options']) + (['--defines=' + st['outputs'][1]] if len(st['outputs']) > 1 else []) + tail
+                    if len(hit) != 1 or collections.Counter(got) != collections.Counter(want) or got[-3:] != tail:
+                        bad += rep.fail('%s backend: the translator of %s (declared outputs %r) is started %d time(s) with %r, the script declares %r' % (
+                            backend, st['source'], st['outputs'], len(hit), hit[0], want),
+                            {'script': p.script(), 'step': st, 'declared_argv (options in order, then source, -o, first output)': want,
+                             'delivered': hit, 'generate_steps_in_script_order': [(x['shape'], x['outputs']) for x in p.steps if x['kind'] == 'generate']})
             elif st['kind'] == 'link' and st.get('options'):
                 hit = [a for a in argvs if a and '-o' in a and a[-1].endswith(st['name'])]
                 rep.case('sys:%s:ld:%s' % (backend, st['name']), True)
